@@ -468,6 +468,31 @@ def run_case(ck, desc):
     if not ck.margin("round trip recovers M and tau (1e-3)", max(eM, et), 1e-3):
         known = _k3(desc, f, t, y)
         ck.violation("round-trip", {"M_true": M, "M_fit": float(fo.M_), "tau_true": tau, "tau_fit": float(fo.tau_), "p0": c["p0"], "nfev": c["nfev"], "mesg": c["mesg"], "data_magnitude": float(np.max(np.abs(y)))}, desc, known_key=known)
+    if desc["n"] % 3 == 1 and max(eM, et) <= 1e-3:
+        # the same round trip under bounds that put NO finite limit on what is fitted (scipy then picks another
+        # optimiser) and under half-infinite ones open downwards: well-formed bounds that contain the truth
+        for label_, b_ in (("no finite limit", Bounds(M=(-np.inf, np.inf), tau=(-np.inf, np.inf))), ("M unlimited, tau > 1e-10", Bounds(M=(-np.inf, np.inf), tau=(1e-10, np.inf)))):
+            # (bounds open DOWNWARDS only - tau in (-inf, 1e3 tau) - were tried too: the trust-region optimiser
+            #  stops 30 % off there on the unchanged tree; a negative time scale is not a bound anyone configures
+            #  and the property's "half-infinite" is read as (lo, inf); not claimed)
+            fb_ = ForecasterOnePhase(f, b_)
+            try:
+                with warnings.catch_warnings():
+                    warnings.simplefilter("ignore")
+                    fb_.fit(t, y)
+                    fs_ = ForecasterOnePhase(f, b_)
+                    fs_.fit(t, y, tau=tau)
+            except Exception as e:  # noqa: BLE001
+                _drain()
+                ck.violation("round-trip", {"bounds": label_, "raised": repr(e)[:200]}, desc)
+                continue
+            _drain()
+            ck.count("roundtrips_under_unlimited_bounds")
+            e_ = max(abs(fb_.M_ / M - 1), abs(fb_.tau_ / tau - 1))
+            if not ck.margin("round trip under unlimited / downward-open bounds (1e-3)", e_, 1e-3):
+                ck.violation("round-trip", {"bounds": label_, "M_true": M, "M_fit": float(fb_.M_), "tau_true": tau, "tau_fit": float(fb_.tau_)}, desc, known_key=_k3(desc, f, t, y))
+            if fs_.tau_ != tau or not ck.margin("supplied tau, M unlimited: M = least-squares optimum", abs(fs_.M_ / M - 1), 1e-6):
+                ck.violation("bounded-least-squares-optimum", {"bounds": label_, "M_": float(fs_.M_), "closed_form": M, "tau_": float(fs_.tau_), "supplied": tau}, desc, known_key=_k3(desc, f, t, y, tau_s=tau, Mb=(-np.inf, np.inf)))
     if desc["n"] % 11 == 0:
         # four forecasters fitted from four threads at once (one well per thread): each fit equals the
         # same fit made alone
